@@ -80,6 +80,15 @@ def run(check: Check) -> None:
     swap = [(x, y) for x in ("M1", "U1", "F1") for y in cc.OPS3] + [(y, x) for x in ("M1", "U1", "F1") for y in cc.OPS3] + [("F1", "F3", "F1"), ("M3", "M1", "M3")]
     cases += [(f, h) for f in cc.KIND_SWAP_FORMULAS for h in swap]
     run_cases(check, cases, _case)
+    # native leg (ground): numeric inputs as raw float64 arrays in the context, incl. lag (defined across rows)
+    for formula in cc.CONTEXT_ARRAY_FORMULAS:
+        for h in [h for r in (1, 2) for h in itertools.product(("M1", "M2", "S1", "S2", "F1", "U2"), repeat=r)] + [("M1", "S2", "M1"), ("S1", "S1", "S2"), ("F2", "M1", "F2")]:
+            p = {"kind": "c18_context_arrays", "formula": formula, "history": list(h)}
+            bad = replays.run(p)
+            check.case(f"context-arrays:{formula}:{h}")
+            check.obligation("histories.context_arrays/ground", "refuted" if bad else "ground")
+            if bad:
+                check.violation(f"history::context-arrays::{bad.split(':', 1)[0]}", bad, p)
     _hash_seed_companion(check)
 
 
